@@ -553,6 +553,12 @@ class ZeroLikeMon(Monitor):
             n_bad = int(np.sum(~np.isfinite(h["logl"][t])))
             all_inf = n_bad == len(h["logl"][t])
             w.violation(self.prop, "stored.minus_inf", f"batch {t} stores {n_bad} particle(s) with -inf log-likelihood" + (" (every prior draw of this iteration fell in the zero-likelihood region)" if all_inf else ""), all_draws_infinite=all_inf)
+        else:
+            # the stored value may have been rewritten on the way (e.g. -inf -> the most negative float): judge the stored *points* with the user's model itself
+            xs = np.asarray(h["x"][t])
+            bad = [i for i in range(len(xs)) if w.target.logl_pure(xs[i]) == -math.inf]
+            if bad:
+                w.violation(self.prop, "stored.minus_inf", f"batch {t} stores {len(bad)} particle(s) at points where the likelihood is zero (stored logl there: {float(np.asarray(h['logl'][t])[bad[0]])!r})", all_draws_infinite=len(bad) == len(xs))
         if beta != 0.0:
             self.batch_seen = len(inc.batch_log)
             return
